@@ -2,6 +2,7 @@ import Ldlm.Proofs.Client
 import Ldlm.Proofs.CoreNow
 import Ldlm.Proofs.CoreLease
 import Ldlm.Proofs.TKey
+import Ldlm.Proofs.CoreRestart
 /-! M5: while the client is alive every hold with a lock timeout above the minimum renew interval
 keeps its lease, for every advance of the clock: each Renew arrives before the deadline. -/
 namespace Ldlm.Client
@@ -58,7 +59,7 @@ theorem earliest_le : ∀ {rs : List (Str × Renewer)} {e}, earliest rs = some e
 
 /-- every renewer's next Renew comes before its hold's lease deadline -/
 structure Alive (o : MapOps M) (c : Cfg) (cc : CCfg) (s : CSt M) : Prop where
-  inv  : Inv' o c s.srv
+  inv  : InvS o c s.srv
   np   : s.panicked = none
   nc   : s.closed = false
   uniq : Uniq s.rs
@@ -75,16 +76,15 @@ theorem toNat_lt {a b : Int} (ha : 0 < a) (h : a < b) : a.toNat * sec < b.toNat 
 
 /-- the server-only advance keeps every renewer alive when no renewer is due before the target -/
 theorem alive_advance (ho : o.Lawful) (hinj : KeysInjective c)
-    (hr : ∀ s : St M, Inv' o c s → Inv' o c (restart o c s).1)
     {s : CSt M} (h : Alive o c cc s) (target : Nat) (hlate : ∀ e ∈ s.rs, target ≤ e.2.next) :
     Alive o c cc { s with srv := (Core.step o c s.srv (.advance (target - s.srv.now))).1 } := by
-  refine ⟨step_inv ho hinj hr h.inv _, h.np, h.nc, h.uniq, ?_⟩
+  refine ⟨step_invS ho hinj h.inv _, h.np, h.nc, h.uniq, ?_⟩
   intro name ρ hg
   obtain ⟨h1, h2, tm, h3, h4⟩ := h.live name ρ hg
   have hl := hlate _ (get_some_mem _ _ _ hg)
   simp only at hl
   have hd : s.srv.now + (target - s.srv.now) < tm.deadline := by omega
-  refine ⟨h1, ?_, tm, advance_not_early ho hinj h.inv _ _ tm h3 hd, h4⟩
+  refine ⟨h1, ?_, tm, advance_not_early ho hinj h.inv.1 _ _ tm h3 hd, h4⟩
   simp only [advance_now]
   omega
 
@@ -92,7 +92,7 @@ set_option maxHeartbeats 800000 in
 /-- **keep-alive**: any advance of the clock leaves every renewer alive, the client unpanicked, and
 sends only Renews that succeed -/
 theorem cadv_alive (ho : o.Lawful) (hinj : KeysInjective c)
-    (hr : ∀ s : St M, Inv' o c s → Inv' o c (restart o c s).1) (hmin : 0 < cc.minRenew) (target : Nat) :
+    (hmin : 0 < cc.minRenew) (target : Nat) :
     ∀ (fuel : Nat) (s : CSt M), Alive o c cc s →
       Alive o c cc (cadv o c cc target fuel s).1 ∧ ∀ rpc ∈ (cadv o c cc target fuel s).2.1, rpc.goodRenew := by
   intro fuel
@@ -106,12 +106,12 @@ theorem cadv_alive (ho : o.Lawful) (hinj : KeysInjective c)
     · rename_i x y hx; rw [hpc] at hx; cases hx
     · rename_i _ hn
       have hnil := earliest_none hn
-      refine ⟨alive_advance ho hinj hr h target (by intro e he; rw [hnil] at he; cases he), by intro rpc hm; cases hm⟩
+      refine ⟨alive_advance ho hinj h target (by intro e he; rw [hnil] at he; cases he), by intro rpc hm; cases hm⟩
     · rename_i name ρ _ he
       clear hpc
       split
       · rename_i hgt
-        refine ⟨alive_advance ho hinj hr h target ?_, by intro rpc hm; cases hm⟩
+        refine ⟨alive_advance ho hinj h target ?_, by intro rpc hm; cases hm⟩
         intro e hm
         have := earliest_le he e hm
         simp only at this
@@ -121,7 +121,7 @@ theorem cadv_alive (ho : o.Lawful) (hinj : KeysInjective c)
         have hget : get s.rs name = some ρ := uniq_get_of_mem _ _ _ h.uniq hmem
         obtain ⟨hlt, hnow, tm, htm, hdl⟩ := h.live name ρ hget
         -- the server advances to the renew instant
-        have hA := alive_advance (cc := cc) ho hinj hr h ρ.next (by
+        have hA := alive_advance (cc := cc) ho hinj h ρ.next (by
           intro e hm
           have := earliest_le he e hm
           simpa using this)
@@ -152,7 +152,7 @@ theorem cadv_alive (ho : o.Lawful) (hinj : KeysInjective c)
                     { tm1 with deadline := ρ.next + ρ.lt.toNat * sec } },
             rs := set s.rs name ⟨ρ.key, ρ.lt, ρ.next + (interval cc.minRenew ρ.lt).toNat * sec⟩ } := by
           refine ⟨?_, h.np, h.nc, uniq_set _ _ _ h.uniq, ?_⟩
-          · have := step_inv ho hinj hr hAinv (.renew name ρ.key ρ.lt)
+          · have := step_invS ho hinj hAinv (.renew name ρ.key ρ.lt)
             rw [hq] at this
             exact this
           · intro name' ρ' hg'
@@ -289,7 +289,7 @@ def COp.inScope (cc : CCfg) : COp → Prop
   | .close => False
 
 theorem cstep_fine (ho : o.Lawful) (hinj : KeysInjective c)
-    (hr : ∀ s : St M, Inv' o c s → Inv' o c (restart o c s).1) (hmin : 0 < cc.minRenew)
+    (hmin : 0 < cc.minRenew)
     (hauto : cc.noAutoRenew = false)
     {s : CSt M} (h : Alive o c cc s) (op : COp) (hop : op.inScope cc) : Fine o c cc (cstep o c cc s op).1 := by
   cases op with
@@ -297,11 +297,11 @@ theorem cstep_fine (ho : o.Lawful) (hinj : KeysInjective c)
   | adv dt =>
     right
     simp only [cstep]
-    exact (cadv_alive ho hinj hr hmin _ _ s h).1
+    exact (cadv_alive ho hinj hmin _ _ s h).1
   | unlock name key =>
     right
     simp only [cstep, hauto, Bool.false_eq_true, if_false]
-    refine ⟨step_inv ho hinj hr h.inv _, h.np, h.nc, uniq_del _ _ h.uniq, ?_⟩
+    refine ⟨step_invS ho hinj h.inv _, h.np, h.nc, uniq_del _ _ h.uniq, ?_⟩
     intro name' ρ' hg'
     simp only [get_del] at hg'
     by_cases e : name = name'
@@ -315,7 +315,7 @@ theorem cstep_fine (ho : o.Lawful) (hinj : KeysInjective c)
     simp only [cstep, hauto, Bool.false_eq_true, not_false_eq_true, true_and]
     have hnow : (Core.step o c s.srv (.tryLock (some s.sid) name (optPos size) (optPos lt))).1.now = s.srv.now := by
       simp only [Core.step, srvTryLock_now]
-    have hinv := step_inv ho hinj hr h.inv (.tryLock (some s.sid) name (optPos size) (optPos lt))
+    have hinv := step_invS ho hinj h.inv (.tryLock (some s.sid) name (optPos size) (optPos lt))
     -- renewers of other names are untouched
     have hoth : ∀ name' ρ', name ≠ name' → get s.rs name' = some ρ' →
         cc.minRenew < ρ'.lt ∧ (Core.step o c s.srv (.tryLock (some s.sid) name (optPos size) (optPos lt))).1.now ≤ ρ'.next ∧
@@ -411,7 +411,7 @@ def crun (o : MapOps M) (c : Cfg) (cc : CCfg) (s : CSt M) (ops : List COp) : CSt
   ops.foldl (fun s op => (cstep o c cc s op).1) s
 
 theorem crun_fine (ho : o.Lawful) (hinj : KeysInjective c)
-    (hr : ∀ s : St M, Inv' o c s → Inv' o c (restart o c s).1) (hmin : 0 < cc.minRenew)
+    (hmin : 0 < cc.minRenew)
     (hauto : cc.noAutoRenew = false) (ops : List COp) :
     ∀ (s : CSt M), Fine o c cc s → (∀ op ∈ ops, op.inScope cc) → Fine o c cc (crun o c cc s ops) := by
   unfold crun
@@ -423,18 +423,18 @@ theorem crun_fine (ho : o.Lawful) (hinj : KeysInjective c)
     apply ih
     · rcases h with h | h
       · left; exact cstep_keeps_outOfSync s op h
-      · exact cstep_fine ho hinj hr hmin hauto h op (hs op (by simp))
+      · exact cstep_fine ho hinj hmin hauto h op (hs op (by simp))
     · intro op' hm; exact hs op' (List.mem_cons_of_mem _ hm)
 
 theorem cinit_alive (ho : o.Lawful) (hinj : KeysInjective c)
-    (hr : ∀ s : St M, Inv' o c s → Inv' o c (restart o c s).1) (sid : Sid) : Alive o c cc (cinit o c sid : CSt M) :=
-  ⟨step_inv ho hinj hr (init_inv' ho) _, rfl, rfl, by simp [cinit, Uniq], by intro n ρ h; simp [cinit, AMap.get] at h⟩
+    (sid : Sid) : Alive o c cc (cinit o c sid : CSt M) :=
+  ⟨step_invS ho hinj (init_invS ho) _, rfl, rfl, by simp [cinit, Uniq], by intro n ρ h; simp [cinit, AMap.get] at h⟩
 
 /-- every hold that has a renewer is held at the server, with its lease deadline after the next Renew -/
 theorem alive_held {s : CSt M} (h : Alive o c cc s) (name : Str) (ρ : Renewer) (hg : get s.rs name = some ρ) :
     held o s.srv name ρ.key := by
   obtain ⟨_, _, tm, htm, _⟩ := h.live name ρ hg
-  obtain ⟨e, hh⟩ := h.inv.timer _ tm (get_some_mem _ _ _ htm)
+  obtain ⟨e, hh⟩ := h.inv.1.timer _ tm (get_some_mem _ _ _ htm)
   obtain ⟨e1, e2⟩ := tkey_injective e
   rcases hh with hh | hh
   · rw [e1, e2]; exact hh
